@@ -64,6 +64,8 @@ def check(prop, tier, runs_override=None):
     coverage["seeds"] = {"VERIF_SEED": seed, "first_run_index": 0, "last_run_index": len(results) - 1}
     n_viol = sum(len(r.get("violations", [])) for r in results)
     coverage["violating_runs"] = sum(1 for r in results if r.get("violations"))
+    if runner.STOPPED_EARLY:
+        coverage["stopped_early"] = "no new runs were started after %d violating runs out of %d finished" % runner.STOPPED_EARLY[0]
     died = sum(n for k, n in coverage.get("fault_kinds_fired", {}).items() if k.startswith("discard."))
     # not a measure of work done (and seed dependent): kept out of the top-level counts
     coverage["discards"] = {"runs_or_steps_not_judged": died, "steps": coverage.pop("discarded_steps", 0),
